@@ -20,10 +20,11 @@ const (
 	OEnd
 	OError
 	ODiverge // the model ran into a jump cycle that never yields: no implementation can return
+	OWait    // a command has not completed: Next must return ErrWaitingForCommandCompletion
 )
 
 func (k ObsKind) String() string {
-	return [...]string{"?", "line", "options", "end", "error", "diverge"}[k]
+	return [...]string{"?", "line", "options", "end", "error", "diverge", "waiting"}[k]
 }
 
 // OptObs is one option of an option group.
@@ -68,11 +69,16 @@ type ModelFunc func(m *Machine, args []Value) FuncResult
 // ModelCmd models a command handler that completes immediately; it returns whether it fails.
 type ModelCmd func(m *Machine, args []Value) (fails bool)
 
+// PendingCmds names the commands whose handler never reports completion (C07: a runner waiting
+// for a command).
+
 // Host is the host configuration of a model run.
 type Host struct {
 	Funcs map[string]ModelFunc
 	Cmds  map[string]ModelCmd
 	Vars  map[string]Value // initial storer contents
+	// Pending: commands that are started (logged) and never complete.
+	Pending map[string]bool
 }
 
 // Checkpoint is the state captured at node entry (C07).
@@ -99,7 +105,7 @@ type Machine struct {
 	sinceYield int
 	// Diverged is set when the model ran into a jump cycle that never yields.
 	Diverged bool
-	unknown    bool // an unmodelled value flowed into the current evaluation
+	unknown  bool // an unmodelled value flowed into the current evaluation
 }
 
 // NewMachine creates a model run of p under host h.
@@ -316,6 +322,14 @@ func (m *Machine) exec(s *Stmt, k func() *Obs) *Obs {
 		}
 		if name == "stop" {
 			return m.end()
+		}
+		if m.H.Pending[name] {
+			m.Log = append(m.Log, "cmd:"+name+"("+ArgsString(args)+")")
+			m.sinceYield = 0
+			var w *Obs
+			w = &Obs{K: OWait, Node: m.Cur}
+			w.next = func(int) *Obs { return w }
+			return w
 		}
 		c := m.H.Cmds[name]
 		if c == nil {
